@@ -187,12 +187,29 @@ struct Observed {
     rng: (u64, u64, u64),
 }
 
+thread_local! {
+    /// "is this the wrapped value's own error type?" — set by the case that knows the concrete error type
+    static OWN_ERROR: std::cell::Cell<Option<fn(&(dyn StdError + 'static)) -> bool>> = const { std::cell::Cell::new(None) };
+}
+
+fn is_a<E: StdError + 'static>(e: &(dyn StdError + 'static)) -> bool {
+    e.is::<E>()
+}
+
 fn chain(e: &(dyn StdError + 'static)) -> Vec<String> {
     let mut v = vec![e.to_string()];
+    let own = OWN_ERROR.with(std::cell::Cell::get);
+    let mut found = own.is_some_and(|f| f(e));
     let mut cur = e.source();
     while let Some(s) = cur {
         v.push(s.to_string());
+        found |= own.is_some_and(|f| f(s));
         cur = s.source();
+    }
+    if own.is_some() {
+        // the error reported through an erased form is the wrapped value's own error (converted into the erased
+        // type, possibly wrapped), not a copy of its text
+        v.push(format!("carries the wrapped value's own error: {found}"));
     }
     v
 }
@@ -346,6 +363,7 @@ where
     S: Selector<Pop> + Send + Sync + 'static,
     S::Error: StdError + Send + Sync + 'static,
 {
+    OWN_ERROR.with(|c| c.set(Some(is_a::<S::Error>)));
     let reference = {
         let mut r = base.fork();
         let c = mk();
@@ -438,6 +456,7 @@ where
     M: Mutator<G> + Send + Sync + 'static,
     M::Error: StdError + Send + Sync + 'static,
 {
+    OWN_ERROR.with(|c| c.set(Some(is_a::<M::Error>)));
     let reference = {
         let mut r = base.fork();
         let res = mk().mutate(genome.clone(), &mut r);
@@ -471,6 +490,7 @@ where
     Rc_: Recombinator<GS, Output = O> + Send + Sync + 'static,
     Rc_::Error: StdError + Send + Sync + 'static,
 {
+    OWN_ERROR.with(|c| c.set(Some(is_a::<Rc_::Error>)));
     let reference = {
         let mut r = base.fork();
         let res = mk().recombine(genomes.clone(), &mut r);
@@ -504,6 +524,7 @@ where
     Op: Operator<I, Output = O> + Send + Sync + 'static,
     Op::Error: StdError + Send + Sync + 'static,
 {
+    OWN_ERROR.with(|c| c.set(Some(is_a::<Op::Error>)));
     let reference = {
         let mut r = base.fork();
         let res = mk().apply(input.clone(), &mut r);
@@ -537,6 +558,7 @@ where
     S: Selector<Pop> + 'static,
     S::Error: StdError + Send + Sync + 'static,
 {
+    OWN_ERROR.with(|c| c.set(None));
     let calls = Arc::new(AtomicUsize::new(0));
     let mk = || Probe { calls: calls.clone(), fail };
     let reference = {
